@@ -76,7 +76,7 @@ PROPS["C17"] = {
     "level": "proof",
     "components": ["MysyncModel/App/Offline.lean (repairSlaveOfflineMode, repairMasterOfflineMode, the three offline filters, getAvailabilityZone, the pass accumulator, the broken-replica rate limiter)"],
     "trusted": ["T4 fake MySQL semantics for offline_mode and startup-time statements", "T8 lags (float seconds in the code) carried as Int milliseconds, thresholds scaled alike; floor(100*x/total) modelled by Int division"],
-    "rule": "random scenarios over 6 replicas in 3 zones x 14 percentages x 4 separators x 8 lag values around both thresholds x offline/online x broken x 5 resetup-status cases x 4 last-shutdown ages x failing statements; half call the inner function host by host with one shared pending map (exact action comparison), half run the whole real loop in Go map order (order-free monitors: eligibility, exact per-zone count allowed by the accumulating cap). distinct = distinct record; non-trivial = at least one action",
+    "rule": "random scenarios over 6 replicas in 3 zones x 14 percentages x 4 separators x 8 lag values around both thresholds x offline/online x broken x 5 resetup-status cases x 4 last-shutdown ages x failing statements; half call the inner function host by host with one shared pending map (exact action comparison), half run the whole real loop in Go map order (order-free monitors: eligibility, exact per-zone count allowed by the accumulating cap). distinct = distinct record; non-trivial = at least one action Lags in milliseconds with fractional values around both thresholds; whole passes include permanently broken replicas with an old or recent shutdown record (at most one taken offline per pass, none inside the interval).",
     "assumptions": ["virtual time does not advance inside one pass (fake servers answer instantly)"],
     "min_lines": 2000,
     "level_text": "Theorems over the model for all cluster states, all visiting orders, all percentages/separators: offline only if conditions + filter; cap respected incl. same-pass accumulation (induction over the pass); pct<=0 never, pct>=100 always; online only if; hysteresis; unknown lag untouched; broken rate limit; master kept online unless marked. Correspondence: the REAL repairSlaveOfflineMode/repairOfflineMode against fake servers and DCS.",
@@ -127,7 +127,7 @@ PROPS["C06"] = {
     "level": "proof",
     "components": _MGR_COMPONENTS + ["MysyncModel/App/SwitchLifecycle.lean (switch / last_switch / last_rejected_switch as a state machine: file, abort, manager tick)"],
     "trusted": _MGR_TRUSTED,
-    "rule": "random multi-tick histories of the real stateManager with a pending request {manual switchover to a host, operator-forced failover, automatic failover} x age {now, 30 min, 31 min, zero initiated_at} x run_count 0-2 x max attempts {0,1,2,60} x real performSwitchover outcome {success, target refuses read-only, operator abort in the middle} x failing 'set switch' x light maintenance; every write/delete of the three keys is observed. distinct = distinct tick; non-trivial = an observable step; requests incl. worker requests without master_transition; attempts that fail after an operator abort; rejection inside the procedure; active list naming a removed host",
+    "rule": "random multi-tick histories of the real stateManager with a pending request {manual switchover to a host, operator-forced failover, automatic failover} x age {now, 30 min, 31 min, zero initiated_at} x run_count 0-2 x max attempts {0,1,2,60} x real performSwitchover outcome {success, target refuses read-only, operator abort in the middle} x failing 'set switch' x light maintenance; every write/delete of the three keys is observed. distinct = distinct tick; non-trivial = an observable step; requests incl. worker requests without master_transition; attempts that fail after an operator abort; rejection inside the procedure; active list naming a removed host Plus a second initiator that files a request between the iteration's read of the request key and its own filing (a fifth of the runs), here and in the failover-heavy C05 sweep, which this check runs too.",
     "assumptions": ["coordination calls of the manager succeed (their failure is C07's subject), except the injected failing StartSwitchover write"],
     "min_lines": 1500,
     "level_text": "Theorems over the request state machine for all inputs: no overwrite (create-if-absent), time-out bound, attempt bound, approved once, each failure counted once, exactly one terminal outcome per iteration, only the lock holder touches a request, success needs a successful procedure, planned switchovers leave 'switch' within max-run_count+1 iterations. The time-out clause was FALSE on the pinned tree (FailSwitchover re-queued the request for ever) and was repaired by a fix: commit (known_findings.json). Monitors on the real code: pending past time-out / attempt limit, re-judged retry, miscounted failure, filing over a pending request, 'succeeded' without the recorded master being the promoted writable node.",
@@ -155,7 +155,7 @@ PROPS["C08"] = {
     "components": ["MysyncModel/App/Lost.lean (stateLost, checkHAReplicasRunning incl. the local host in its own probe list, outcome classes of SetReadOnlyWithForce / IsWaitingSemiSyncAck / stopReplicationOnMaster as inputs)"],
     "trusted": ["T4 fake MySQL semantics (read_only, offline_mode, semi-sync variables, PROCESSLIST/KILL, lock wait timeout 1205, hanging statements)",
                 "E8 virtual clock; probe time-outs take db_lost_check_timeout of virtual time"],
-    "rule": "random 1-3 tick histories of the REAL stateLost with sleeps {0,24,25,26,29,30,31 s} (the 5 s probe time-out puts 25 s exactly on the 30 s delay) over: cluster size 1-4, local role {master, replica, non-HA host}, semi-sync on/off, wait count 1-2, per-replica condition {streaming, stopped, wrong source, not semi-sync, refusing, timing out}, fencing disabled, reconnect, read-only outcome {ok, 1205 for ever, deadline, other error, 1205 until semi-sync is off}, stuck-ack visible/not/unreadable, failing offline / semi-sync-off, failing local semi-sync status. distinct = distinct tick; non-trivial = the node was fenced",
+    "rule": "random 1-3 tick histories of the REAL stateLost with sleeps {0,24,25,26,29,30,31 s} (the 5 s probe time-out puts 25 s exactly on the 30 s delay) over: cluster size 1-4, local role {master, replica, non-HA host}, semi-sync on/off, wait count 1-2, per-replica condition {streaming, stopped, wrong source, not semi-sync, refusing, timing out}, fencing disabled, reconnect, read-only outcome {ok, 1205 for ever, deadline, other error, 1205 until semi-sync is off}, stuck-ack visible/not/unreadable, failing offline / semi-sync-off, failing local semi-sync status. distinct = distinct tick; non-trivial = the node was fenced Every third world has a registered cascade replica (not an HA node).",
     "assumptions": [],
     "min_lines": 2500,
     "level_text": "Theorems over the model for all inputs: reconnect -> candidate; exempt (single node, non-HA, disabled, live group) changes nothing; postponement only while some replica is UNREACHABLE and only within the delay from the first such iteration; refusing replicas never postpone; fenced after the delay; fencing = read-only request to the local node (forced on a master); stuck-commit handling order; semi-sync off / offline only in that case; timer cleared when safe. The model's action alphabet has no promotion / re-point / un-fence. Monitors on the real code: any remote statement or coordination write, un-fencing, fencing although exempt, not fencing without entitlement to postpone.",
@@ -189,7 +189,7 @@ PROPS["C01"] = {
     "trusted": ["T4 fake MySQL semantics (read_only, replication threads, CHANGE REPLICATION SOURCE, RESET REPLICA ALL, GTID progress when IO/SQL threads run)",
                 "E1 exclusive control; E2 restart state", "the observer c01observe (event log -> phase steps); only SUCCESSFUL steps and lock re-checks are compared, oracle inputs are recovered from the recorded results, tie-breaks between equal positions are resolved by trying all arrival orders",
                 "T9 force_switchover off, external replication off; the speed-up phase is abstract here (C19)"],
-    "rule": "random real performSwitchover runs: 2-5 nodes, semi-sync (w 1-2) / plain / async mode, GTID histories with two source uuids, gaps, executed behind by 0-20 with retrieved-but-unapplied tails, diverged replicas, lags around the priority bound, priorities 0-2; request kinds {to a host, from the master, automatic failover, operator-forced failover, worker without transition}; master dead or hanging from the start, replicas dead, published list with or without the last host; one of: a failing/hanging/lost-reply statement (13 kinds, 1st or 2nd occurrence, any host), a node killed when a given statement kind first arrives, a scripted lock loss at the 1st/2nd re-check, a failing/lost coordination write. Ground-truth snapshots of all servers are taken at the first lock re-check and whenever SET GLOBAL read_only=0 arrives. distinct = distinct run; non-trivial = more than two observable steps; request kinds incl. automatic failover taken up again after the master key moved (`from` is no longer the recorded master); 60 % semi-sync / 20 % async mode with the allowed-lag exception (candidates with a broken SQL thread, varied repl_mon delay) / 20 % neither",
+    "rule": "random real performSwitchover runs: 2-5 nodes, semi-sync (w 1-2) / plain / async mode, GTID histories with two source uuids, gaps, executed behind by 0-20 with retrieved-but-unapplied tails, diverged replicas, lags around the priority bound, priorities 0-2; request kinds {to a host, from the master, automatic failover, operator-forced failover, worker without transition}; master dead or hanging from the start, replicas dead, published list with or without the last host; one of: a failing/hanging/lost-reply statement (13 kinds, 1st or 2nd occurrence, any host), a node killed when a given statement kind first arrives, a scripted lock loss at the 1st/2nd re-check, a failing/lost coordination write. Ground-truth snapshots of all servers are taken at the first lock re-check and whenever SET GLOBAL read_only=0 arrives. distinct = distinct run; non-trivial = more than two observable steps; request kinds incl. automatic failover taken up again after the master key moved (`from` is no longer the recorded master); 60 % semi-sync / 20 % async mode with the allowed-lag exception (candidates with a broken SQL thread, varied repl_mon delay) / 20 % neither Since the round-3/4 seeded changes: a sixth of the runs have a slow server or a latency blip (servers and coordination service), a quarter of the replicas apply their relay log only seconds after the freeze (received ≠ applied while a lag is reported), a quarter of the runs start with leftovers in the optimisation registry, every second coordination tree carries old parent nodes, 20 s of settling time after the procedure returns.",
     "assumptions": ["E3 is proved in the environment model; that the fake servers implement it (a read-only server with stopped IO thread does not grow executed+retrieved) is part of T4"],
     "min_lines": 1000,
     "level_text": "Theorems for all oracle inputs (= all combinations of failing calls, all cluster shapes, all request kinds) and all crash prefixes: before any promotion the quorum re-count of FROZEN hosts against the published list passed, both lock re-checks passed in the right places, exactly the frozen hosts' positions were collected and have a maximum, the new master caught up (or the async escape, which needs async mode + automatic cause + positive allowed lag); semantic core promotion_safe: every frozen host's executed+retrieved set is contained in the promoted node's executed set (via the C13 maximal-element theorem and transitivity), with E3 proved as an environment lemma; split brain aborts with the marker and nothing promoted; marker only on split brain. Monitors on real runs evaluate PromotionOK on ground-truth snapshots at the moment read_only=0 arrives.",
@@ -206,7 +206,7 @@ PROPS["C11"] = {
     "components": ["MysyncModel/App/Recovery.lean (checkRecovery incl. the stuck-commit timer, isSlavePermanentlyLost, SetRecovery write order, stale-master repair)",
                    "MysyncModel/App/Switchover.lean (marking before promotion)", "MysyncModel/App/ActiveNodes.lean (exclusion of marked hosts from the list)", "MysyncModel/GtidParse.lean, Gtid.lean"],
     "trusted": ["T4 fake MySQL semantics; fake DCS", "T6 GTID text parser modelled"],
-    "rule": "REAL checkRecovery over: marked / not, resetup file, local status {running, stopped, error, not a replica, unreadable} x relation to the master's set {behind, equal, ahead, diverged} x read-only / not / unreadable x stuck commit {no, yes, unreadable} x stuck timer age {0, 30, 59, 60, 61 s} x recorded master {other host, this host, unregistered, absent} x failing master GTID read x failing clear; plus the C01 runs (old master marked before promotion unless confirmed clean by the procedure's own evidence). distinct = distinct record; non-trivial = an action was taken",
+    "rule": "REAL checkRecovery over: marked / not, resetup file, local status {running, stopped, error, not a replica, unreadable} x relation to the master's set {behind, equal, ahead, diverged} x read-only / not / unreadable x stuck commit {no, yes, unreadable} x stuck timer age {0, 30, 59, 60, 61 s} x recorded master {other host, this host, unregistered, absent} x failing master GTID read x failing clear; plus the C01 runs (old master marked before promotion unless confirmed clean by the procedure's own evidence). distinct = distinct record; non-trivial = an action was taken Plus the repair passes of C10's harness (a host claiming to be master beside the recorded one is marked in the same pass, whatever statement failed).",
     "assumptions": [],
     "min_lines": 4000,
     "level_text": "Theorems for all inputs: old master marked before promotion whenever not confirmed clean against the most recent position; stale master is fenced, re-pointed and marked in one pass; SetRecovery publishes the list without the host first; marked hosts are never members of a computed list (unless recorded master) and the promoted host is always listed; the mark is cleared only for a read-only replica not in error whose set is contained in the master's (set-level corollary via C13); ahead/error => resetup marker and mark kept; inert when unmarked or resetup pending. Monitors on the real code for the same clauses.",
@@ -240,7 +240,7 @@ PROPS["C10"] = {
     "trusted": ["T4 fake MySQL semantics of replication threads / errors (ClearErrOnStart = the environment's answer to START REPLICA)",
                 "observer c10pass (statement log -> per-host action list)",
                 "the finite abstraction Abs of one node (attempt budget abstracted to five classes; the unbounded budget is covered by the ranking-function theorems attempt_uses_budget / attempts_total_bounded)"],
-    "rule": "1-6 consecutive REAL repair passes (repairOfflineMode + repairCluster) of a manager over 3-4 node worlds with decoy unregistered servers: replicas stopped / in temporary error / in permanent error / pointing to another host / claiming master / writable / offline, aggressive mode on-off, attempt limits 1-3, cooldown elapsed or not, one failing call per run in a quarter of the runs (faulted hosts are skipped by the comparison, not by the monitors). distinct = distinct record; non-trivial = at least one repair action",
+    "rule": "1-6 consecutive REAL repair passes (repairOfflineMode + repairCluster) of a manager over 3-4 node worlds with decoy unregistered servers: replicas stopped / in temporary error / in permanent error / pointing to another host / claiming master / writable / offline, aggressive mode on-off, attempt limits 1-3, cooldown elapsed or not, one failing call per run in a quarter of the runs (faulted hosts are skipped by the comparison, not by the monitors). distinct = distinct record; non-trivial = at least one repair action Since the round-3/4 seeded changes: the manager runs on the master or on a replica; a host (also the manager's own) is taken out of the registry between two passes; a third of the faulty runs have a statement that fails EVERY time (error or lost reply); temporary SQL errors come back on every start in half of the cases; a focused family (aggressive mode, recurring error, lost replies inside the reset method, 8-11 passes); the resets the server executed are counted per host against attempt limit and cooldown.",
     "assumptions": ["cascade replicas are C16; master un-fencing is C17/C18", "convergence is claimed for fault-free passes with the cooldown elapsing between them (the property's own premise: 'in the absence of further faults')"],
     "min_lines": 1500,
     "level_text": "Theorems: re-point only to the recorded master and never to itself; configuration reset only if aggressive, non-permanent error, start attempts exhausted, reset attempts left, cooldown passed; permanently broken replication untouched; counters bounded and every attempt counted once; cooldown between attempts; stale master fenced, re-pointed and marked in one pass; ranking function for ANY attempt limit (at most budgetLeft attempts ever); convergence of the finite per-node abstraction to canonical-or-sink within four passes (whole table), canonical state stable.",
@@ -327,7 +327,7 @@ PROPS["C07"] = {
     "components": _SIM_COMPONENTS + ["MysyncModel/App/Switchover.lean + SwitchLifecycle.lean (the procedure as an ordered step list over oracle outcomes; a crash is a prefix)",
                                          "MysyncModel/App/SwitchWorld.lean (effect of every step on a world of servers and coordination keys; the oracle inputs of the successor's run are read off the world the crash left behind)"],
     "trusted": _SIM_TRUSTED + ["process death = from the chosen external call on, nothing the process sends has any effect (its MySQL statements hang, its coordination session is cut and expires after the session time-out)"],
-    "rule": "for 7 base scenarios (manual switchover to / from on 2-4 nodes, automatic failover after a master crash / isolation on 2-4 nodes): a dry run counts the external calls (SQL statements and coordination writes) the managing daemon makes between taking the request up and its terminal record; then the manager is killed after call i for every 12th i (thorough: every i), once with the same host restarted and once with another host taking over; healing 6 virtual minutes. distinct = distinct run; non-trivial = always",
+    "rule": "for 7 base scenarios (manual switchover to / from on 2-4 nodes, automatic failover after a master crash / isolation on 2-4 nodes): a dry run counts the external calls (SQL statements and coordination writes) the managing daemon makes between taking the request up and its terminal record; then the manager is killed after call i for every 12th i (thorough: every i), once with the same host restarted and once with another host taking over; healing 6 virtual minutes. distinct = distinct run; non-trivial = always Plus the 1 500 real performSwitchover runs of the C01 harness (master key last and after promotion; the list published at promotion contains every replica that follows the new master).",
     "assumptions": ["the successor has a working coordination service and servers (the property's 'next manager')"],
     "min_lines": 40,
     "level_text": "PARTIAL. Proved on the procedure model for every crash point (prefix) and all oracle outcomes: the recorded master is written last and only after the new master is writable; a crash before that leaves the old master key; a lost lock stops the procedure; at most one node is made writable; the request stays in place until a terminal record (hypothesis: the result keys do not already hold this very record). Proved on the world model for a planned switchover in a healed world, for EVERY cluster size, every configuration with a non-negative wait count and EVERY crash point k: the successor's run from the world the first k steps left behind ends with one writable master = the requested = the recorded one and every other server a read-only running replica of it (planned_switchover_is_resumable), and at no point of either run are two servers writable (never_two_writable). Decided on the real daemons by simulation at the sampled crash points for every request kind incl. failover: the successor finishes or rejects the request, the cluster is canonical, no acknowledged transaction is missing.",
